@@ -50,7 +50,13 @@ def importableFromC (path frm : List Char) : Bool :=
     let parent := path.take (i - 1)
     frm == parent || isPrefixC (parent ++ ['/']) frm
 
+/-- the path go/packages gives a package that was named by a list of files: it says nothing about where the package lives -/
+def syntheticPath : String := "command-line-arguments"
+
 def importableFrom (path frm : String) : Bool := importableFromC path.toList frm.toList
+
+/-- the whole function of wire.go: for a package named by a list of files the rule cannot be decided and is left to the compiler -/
+def importableFromTool (path frm : String) : Bool := frm == syntheticPath || importableFrom path frm
 
 /-- insertion sort on strings (Go: `sort.Strings`; bytewise = codepoint order on ASCII) -/
 def insertS (x : String) : List String → List String
